@@ -115,6 +115,7 @@ def class_source(name, feats, prev):
     if "xs" in feats:
         L.append("\tfn size(self) -> int {\n\t\treturn %sxs.len()\n\t}" % sf)
         L.append("\tfn resize(self) {\n\t\tself.xs.clear()\n\t}")
+        L.append("\tfn popfront(self) -> int {\n\t\treturn self.xs.remove(0)\n\t}")
     if "o" in feats:
         L.append("\tfn seto(self, v: int) {\n\t\tself.o = v\n\t}")
         L.append("\tfn clearo(self) {\n\t\tself.o = nil\n\t}")
@@ -180,6 +181,7 @@ class Interp:
         self.r0, self.r1 = 0, ""
         self.helpers = set()
         self.clos = []      # closures made by methods: (name, kind, object)
+        self.wdecl = set()  # classes for which the optional work variable w_<class> exists
         self.regs = {}
         self.vars = {}      # name -> HObj
         self.order = []
@@ -217,6 +219,14 @@ class Interp:
             f = self.feats[o.cls]
             em.code("print %s.n" % name)
             em.out(str(o.n))
+            if "peer" in f and self.step % 2 == 0:
+                # the optional class-typed field, read with `?=` into the one work variable of the class
+                w = "w_%s" % o.cls
+                if o.cls not in self.wdecl:
+                    self.wdecl.add(o.cls)
+                    em.code("%s: %s? = nil" % (w, o.cls))
+                em.code("%s ?= %s.peer\nif %s == nil {\n\tprint \"none\"\n} else {\n\tt%s = get %s\n\tprint t%s.n\n}" % (w, name, w, w, w, w))
+                em.out("none" if o.peer is None else str(o.peer.n))
             if "c2" in f and self.step % 3 == 0:
                 em.code("print %s.tag" % name)
                 em.out(str(o.tag))
@@ -414,6 +424,26 @@ class Interp:
                     if "xs" in self.feats[o.cls]:
                         o.xs.append(d)
                     em.out(str(o.n))
+            elif m == "popfront":
+                if "xs" not in f or len(a.xs) < 2:
+                    return False
+                em.code("print %s.popfront()" % an)
+                em.out(str(a.xs.pop(0)))
+            elif m == "peekpeer":
+                # an optional field read into ONE work variable per class with `?=`: after a read that finds nil the
+                # variable is nil, whatever it held before
+                if "peer" not in f:
+                    return False
+                w = "w_%s" % a.cls
+                if a.cls not in self.wdecl:
+                    self.wdecl.add(a.cls)
+                    em.code("%s: %s? = nil" % (w, a.cls))
+                readers = [(an, a)]
+                if b is not None and b.cls == a.cls:
+                    readers.append((op["b"], b))      # the same work variable reads a second object's field right afterwards
+                for rn, ro in readers:
+                    em.code("%s ?= %s.peer\nif %s == nil {\n\tprint \"none\"\n} else {\n\tt%s = get %s\n\tprint t%s.n\n}" % (w, rn, w, w, w, w))
+                    em.out("none" if ro.peer is None else str(ro.peer.n))
             elif m == "sumread":
                 # one expression reads a field and calls a method that updates it: operands are evaluated left to right
                 form = op["v"] % 4
@@ -662,7 +692,7 @@ class Interp:
 
 METHODS = ["getn", "setn", "resetn", "add", "twice", "me", "fresh", "chain", "swapn", "sets", "cat", "size", "resize", "seto",
            "clearo", "link", "peern", "bumppeer", "getpeer", "attach", "othern", "copyfrom", "copyfrom", "getme", "toggle", "toggle", "negn", "grow", "both", "drain", "chainfresh", "chainpeer", "sharexs", "sharexs",
-           "resize", "flip", "flip", "addf", "sumread", "sumread", "curadd", "curadd", "curn", "setcur", "getcur", "add2", "add2", "mkclo", "mkclo", "callclo", "callclo", "callclo"]
+           "resize", "flip", "flip", "addf", "sumread", "sumread", "curadd", "curadd", "curn", "setcur", "getcur", "add2", "add2", "mkclo", "mkclo", "callclo", "callclo", "callclo", "peekpeer", "peekpeer", "peekpeer", "popfront", "popfront", "popfront"]
 
 
 def gen_op(rng, it):
@@ -679,10 +709,12 @@ def gen_op(rng, it):
                          ("xsalias", 1), ("is", 2), ("mklist", 1), ("lpush", 1), ("lfetch", 2), ("readinto", 2), ("rebindpeer", 1), ("regput", 1), ("regget", 2)])
     op = {"op": kind, "a": a, "v": rng.range(0, 9)}
     if kind == "call":
-        op["m"] = rng.choice(METHODS)
+        # swarm: a history may concentrate on a few methods, so that rare combinations of them meet within 15 operations
+        focus = getattr(it, "focus", None)
+        op["m"] = rng.choice(focus) if focus and rng.chance(3, 5) else rng.choice(METHODS)
         op["t"] = rng.choice(STRS)
         op["b"] = rng.choice(names)
-        if op["m"] in ("swapn", "link", "copyfrom", "sharexs", "curadd", "setcur"):
+        if op["m"] in ("swapn", "link", "copyfrom", "sharexs", "curadd", "setcur", "peekpeer"):
             op["b"] = rng.choice(same)
     elif kind in ("rebind", "rebindpeer"):
         op["b"] = rng.choice(same)
@@ -728,6 +760,8 @@ def generate(rng, max_ops=15):
     classes = gen_classes(rng)
     in_lib = rng.chance(1, 4)
     it = Interp(classes, in_lib)
+    if rng.chance(1, 2):
+        it.focus = rng.sample(sorted(set(METHODS)), 3) + ["link", "add"]
     ops = []
     nops = rng.range(4, max_ops)
     tries = 0
